@@ -341,6 +341,35 @@ def fileLoad (cfg : Cfg) (selfCls : Nat) (p : PNode) : Except Err Node :=
     else setstate cfg (c.forState none) ch (strings (inDom ch) dg.inl) (strings (sInDom ch) sg.inl)
           (strings (sOutDom ch) sg.outl)
 
+/-! ## two more places where the pinned code and its repair differ (driver switches) -/
+
+mutual
+/-- repaired `_get_connections_as_strings`: connections to channels of nodes that are no siblings
+are not stored (pinned: their labels are stored and cannot be resolved, or resolve to a sibling
+that happens to carry the same label) -/
+def closeUp : Node → Node
+  | .mk c ch dg sg =>
+    .mk c (closeUpL ch)
+      ⟨fun a => (dg.inl a).filter (fun o => decide (o ∈ outDom ch)), fun o => (dg.outl o).filter (fun a => decide (a ∈ inDom ch))⟩
+      ⟨fun a => (sg.inl a).filter (fun o => decide (o ∈ sOutDom ch)), fun o => (sg.outl o).filter (fun a => decide (a ∈ sInDom ch))⟩
+def closeUpL : List Node → List Node
+  | [] => []
+  | n :: ns => closeUp n :: closeUpL ns
+end
+
+/-- pinned `Node.load` adopts the state of the unpickled instance `inst` but leaves the node's own
+channels owned by `inst`; a later pickle of the node therefore drags `inst` along: a childless twin
+(its children were handed over, its starting nodes removed) that still reports the node's input
+value links, because it reads them off the shared channels -/
+def twinOf (n : Node) : PNode :=
+  .mk { n.core.forState none with outLinks := [], starting := [] } [] [] [] []
+
+/-- pickling a node that was loaded from file by the pinned `Node.load`: the twin must load too -/
+def loadHaunted (cfg : Cfg) (pp : Option Path) (n : Node) : Except Err Node :=
+  match load cfg (twinOf n) with
+  | .error e => .error e
+  | .ok _ => load cfg (save pp n)
+
 /-! ## observation -/
 
 /-- one line per node: where it is, its record (live executors are not state), every child
